@@ -32,6 +32,54 @@ def run_graph(n, edges, catch=()):
     return idom, num
 
 
+def run_history(n, edges, catch, rnd):
+    """the same Graph object numbered, then edited (a node removed / another entry chosen) and numbered again, as the decompiler's
+    passes do; -> (kind, n', edges', idom', num') of the edited graph relabelled 1..n' with its entry as node 1, or None when no edit
+    leaves a rooted graph"""
+    from androguard.decompiler import graph, node
+    g = graph.Graph()
+    nodes = {k: node.Node("n%d" % k) for k in range(1, n + 1)}
+    for k in range(1, n + 1):
+        g.add_node(nodes[k])
+    catch = set(catch)
+    for (a, b) in edges:
+        if (a, b) in catch:
+            if nodes[b] not in g.catch_edges[nodes[a]]:
+                g.catch_edges[nodes[a]].append(nodes[b])
+                g.reverse_catch_edges[nodes[b]].append(nodes[a])
+        else:
+            g.add_edge(nodes[a], nodes[b])
+    g.entry = nodes[1]
+    g.immediate_dominators()
+    g.compute_rpo()
+    options = []
+    for v in range(2, n + 1):
+        rest = [(a, b) for (a, b) in edges if v not in (a, b)]
+        keep = [k for k in range(1, n + 1) if k != v]
+        ren = {k: i + 1 for i, k in enumerate(keep)}
+        if rooted(n - 1, [(ren[a], ren[b]) for a, b in rest]):
+            options.append(("remove", v, keep, rest))
+    for r in range(2, n + 1):
+        keep = [r] + [k for k in range(1, n + 1) if k != r]
+        ren = {k: i + 1 for i, k in enumerate(keep)}
+        if rooted(n, [(ren[a], ren[b]) for a, b in edges]):
+            options.append(("reroot", r, keep, list(edges)))
+    if not options:
+        return None
+    kind, v, keep, rest = rnd.choice(options)
+    if kind == "remove":
+        g.remove_node(nodes[v])
+    else:
+        g.entry = nodes[v]
+    ren = {k: i + 1 for i, k in enumerate(keep)}
+    dom = g.immediate_dominators()
+    inv = {id(nodes[k]): ren[k] for k in keep}
+    idom = [0 if dom.get(nodes[k]) is None else inv[id(dom[nodes[k]])] for k in keep]
+    g.compute_rpo()
+    num = [nodes[k].num for k in keep]
+    return kind, len(keep), sorted((ren[a], ren[b]) for a, b in rest), idom, num
+
+
 def rooted(n, edges):
     succ = {}
     for a, b in edges:
@@ -94,6 +142,9 @@ def run_property(chk, pid):
                 chk.violation("model:C18.immediate-dominators:" + shape(nn, edges), "Dominators.IDom", dict(n=nn, edges=edges, want=want, got=idom))
             recs.append(dict(n=nn, edges=[list(e) for e in edges], idom=idom, num=num, full=True, src="model"))
             n_s2c += 1
+            h = run_history(nn, edges, catch, rnd)
+            if h is not None:
+                recs.append(dict(n=h[1], edges=[list(e) for e in h[2]], idom=h[3], num=h[4], full=True, src="numbered-again-after-" + h[0]))
         if states:
             chk.sample(dict(n=nn, edges=sorted(map(list, states[len(states) // 2]["E"])), spec_idom=list(states[len(states) // 2]["idom"])), cap=2)
     # 1- and 2-node graphs, and 4-node graphs enumerated by the harness (quick: 1 in 6), judged by the trace spec
@@ -125,6 +176,9 @@ def run_property(chk, pid):
             edges = random_graph(rnd, n, rnd.choice(["sparse", "dense", "loops"]))
             idom, num = run_graph(n, edges, [e for e in edges if rnd.random() < 0.2])
             recs.append(dict(n=n, edges=[list(e) for e in edges], idom=idom, num=num, full=n <= 5, src="random"))
+            h = run_history(n, edges, [e for e in edges if rnd.random() < 0.2], rnd) if n <= 40 else None
+            if h is not None:
+                recs.append(dict(n=h[1], edges=[list(e) for e in h[2]], idom=h[3], num=h[4], full=h[1] <= 5, src="numbered-again-after-" + h[0]))
     res = tlc.validate("Dominators_Trace", "Dominators_Trace.cfg", recs, shards=16, heap="3g", timeout=6000)
     chk.trace_result(res, "Dominators_Trace")
     chk.c2s -= res["accepted"]
